@@ -138,6 +138,13 @@ def _variant_of(rng, job):
     extra = _rand_job(rng, job["sp"], False)
     if rng.random() < 0.03:
         files.append([FN_DOC + "~", "{}", T0])  # a left-over document backup
+    if job["files"] and rng.random() < 0.12:
+        # destination-only files named like the temporary / partial / backup spelling of a SOURCE file
+        # (download leftovers, editor backups): they are the destination's own files
+        base_name = rng.choice(job["files"])[0]
+        dn, bn = os.path.split(base_name)
+        for pat in rng.sample(["%s.part", "%s.tmp", "%s~", ".%s.swp", "._%s", "%s.bak", "%s.partial", ".~%s"], 2):
+            files.append([os.path.join(dn, pat % bn) if dn else pat % bn, "mine:" + pat, rng.choice(MTIMES)])
     files, dirs = _normalise(files + extra["files"], dirs + extra["dirs"])
     out = {"sp": job["sp"], "files": files, "dirs": dirs, "doc": None, "doc_mt": rng.choice(MTIMES)}
     r = rng.random()
